@@ -135,6 +135,18 @@ def pairsWFb (n : Nat) (d e : Nat → α) : Bool :=
     (if ltb (e i) zero then
       decide (0 < i) && eqb (e (i - 1)) (-(e i)) && eqb (d (i - 1)) (d i) else true)
 
+/-- the product of the spectrum read off `(d, e)`: a real eigenvalue contributes `d`, a conjugate
+pair `d² + e²` (counted once, at its member with positive imaginary part) -/
+def spectrumProd (n : Nat) (d e : Nat → α) : α :=
+  (List.range n).foldl (fun acc i =>
+    if gtb (e i) zero then acc * (d i * d i + e i * e i)
+    else if ltb (e i) zero then acc
+    else acc * d i) one
+
+/-- the sum of the real parts -/
+def spectrumSum (n : Nat) (d : Nat → α) : α :=
+  (List.range n).foldl (fun acc i => acc + d i) zero
+
 /-! ## A · diag(D) · B   (MatrixTools.h:290-309)
 
 ```
